@@ -17,7 +17,7 @@
 //!     K1 A: mint 5, burn 2, tr B 1 minted, ret         B: tro var1 1 base, smo 1 (1 data byte), ret
 //!     K2 A: mint 3, call B forwarding 2 minted, ret     B: if $bal==0 rvrt else tr A $bal of the forwarded asset, ret
 //!     K3 A: mint 4, burn ALL of its minted balance, if $bal!=0 burn 1 more (panics), ret
-//!        B: smo ALL of B's base balance, if $bal!=0 tro var0 $bal of the forwarded asset, ret
+//!        B: mint 1 (new balance entry), smo ALL of B's base balance, if $bal!=0 tro var0 $bal of the forwarded asset, ret
 //!   Transaction shapes: std (base coin + X coin, both change outputs, 2 variable
 //!     outputs), nochange (no change outputs), msgs (message-coin + message-data inputs,
 //!     coin outputs of base and X, change(base) only, max_fee_limit 1000 at price 0),
@@ -267,9 +267,10 @@ fn codes(which: &str) -> (Vec<Instruction>, Vec<Instruction>) {
                 op::ret(RegId::ONE),
             ],
             vec![
+                op::mint(RegId::ONE, R_SUB0), // asset(B,0): creates a new balance entry
                 op::bal(R_T1, r::ASSET_BASE, RegId::FP),
                 op::smo(r::RECIPIENT, r::PATTERN, RegId::ZERO, R_T1), // all of B's base
-                op::jnzi(RegId::BAL, 4),
+                op::jnzi(RegId::BAL, 5),
                 op::ret(RegId::ONE),
                 op::addi(R_T1, RegId::FP, 32),
                 op::tro(r::RECIPIENT, R_VAR0, RegId::BAL, R_T1),
@@ -413,10 +414,14 @@ fn build_world(shape: &Shape, code: &str) -> W {
 }
 
 fn build_worlds() -> Vec<W> {
+    // Latin-square order: every three consecutive worlds use the three code
+    // configurations with three different shapes (so a run cut short by the time
+    // budget still has seen every shape and every callee code early); std/K1 first.
+    let sh = shapes();
     let mut v = Vec::new();
-    for code in CODE_NAMES {
-        for s in shapes() {
-            v.push(build_world(&s, code));
+    for layer in 0..sh.len() {
+        for (ci, code) in CODE_NAMES.iter().enumerate() {
+            v.push(build_world(&sh[(layer + ci) % sh.len()], code));
         }
     }
     v
@@ -1076,7 +1081,7 @@ fn explore(ctx: &Ctx) {
     ctx.set("callee_code", json!({
         "K1": "A: mint 5; burn 2; tr B 1 minted; ret | B: tro var1 1 base; smo 1 (1 byte); ret",
         "K2": "A: mint 3; call B fwd 2 minted; ret | B: if $bal==0 rvrt; tr A $bal forwarded-asset; ret",
-        "K3": "A: mint 4; burn all; if $bal!=0 burn 1 (panics); ret | B: smo all base; if $bal!=0 tro var0 $bal forwarded-asset; ret",
+        "K3": "A: mint 4; burn all; if $bal!=0 burn 1 (panics); ret | B: mint 1 (new entry); smo all base; if $bal!=0 tro var0 $bal forwarded-asset; ret",
     }));
     let mut per_world = vec![];
     let mut capped = false;
